@@ -20,6 +20,7 @@ EXPLANATION = (
     ' Round 4 (added): every __hash__ of a Traps subclass is hash(<canonical hash>) (no label such as the slug); get_traps_from_coordinates never takes the truth value of a looked-up trap ID (ID 0 is valid).'
     ' Round 5 (added): a qubit is matched to a trap by rounded equality (no isclose-and-sum); negative zeros are normalised in the rounded coordinates; Traps.__init__ stores its own copy; no itemgetter(*keys) collection of coordinates (KNOWN: single trap).'
     ' Round 6 (added after the fifth independent round of breaking changes): the `+ 0.0` normalisation is applied to the rounded array (its operand contains the rounding call); the qubit position is converted with dtype=float before it is rounded (np.round keeps float32).'
+    ' Round 7 (added after the sixth, smaller round of breaking changes): Traps.__init__ stores a float64 conversion (dtype=float); no builtin round(x, COORD_PRECISION) in the register package (np.round and round() disagree on half-way values).'
 )
 ASSUMPTIONS = ["attribute-level taint inside the CoordsCollection class family; aliasing through locals is followed by the guard abstraction"]
 
